@@ -52,9 +52,14 @@ func encodingsExtra(ctx *core.Ctx) (int, string, []core.ExtraFailure) {
 	// 4-byte 0..0x1FFFFF (sampled: the first and last two blocks of every 64K plane)
 	maxV := uint32(0x200000)
 	for base := uint32(0); base < maxV; base += 1024 {
-		if base >= 0x10000 {
+		if ctx.Escalate <= 1 && ctx.Tier != "thorough" {
+			// quick: the blocks at the edges of every lead-byte range (first and last 1024
+			// values of every 4096 = one 3-byte lead byte; of every 64K plane for 4 bytes)
+			// and everything below U+1000; all blocks in thorough and on drift
 			off := base & 0xFFFF
-			if !(off < 2048 || off >= 0x10000-2048) && ctx.Escalate <= 1 && ctx.Tier != "thorough" {
+			edge3 := base < 0x10000 && (base < 0x1000 || base&0xFFF == 0 || base&0xFFF == 0xC00 || (base >= 0xD000 && base < 0xE000))
+			edge4 := base >= 0x10000 && (off == 0 || off == 0x10000-1024)
+			if !edge3 && !edge4 {
 				continue
 			}
 		}
